@@ -151,7 +151,7 @@ Fixpoint digits_us (s : str) (prev : bool) (acc : Z) (cnt : N) : option (Z * N) 
   | [] => if prev then Some (acc, cnt) else None
   | c :: r =>
       match udigit_val c with
-      | Some d => digits_us r true (acc * 10 + d)%Z (cnt + 1)%N
+      | Some d => digits_us r true (10 * acc + d)%Z (cnt + 1)%N
       | None => if (c =? 95)%N && prev then digits_us r false acc cnt else None
       end
   end.
@@ -160,14 +160,14 @@ Definition strip_int_space (s : str) : str :=
   rev (drop_while int_space (rev (drop_while int_space s))).
 
 (** int(text): None stands for ValueError. *)
+Definition split_sign (body : str) : bool * str :=
+  match body with
+  | c :: r => if (c =? 43)%N then (false, r) else if (c =? 45)%N then (true, r) else (false, body)
+  | [] => (false, body)
+  end.
+
 Definition py_int (s : str) : option Z :=
-  let body := strip_int_space s in
-  let '(neg, ds) :=
-    match body with
-    | 43%N :: r => (false, r)
-    | 45%N :: r => (true, r)
-    | _ => (false, body)
-    end in
+  let '(neg, ds) := split_sign (strip_int_space s) in
   match digits_us ds false 0%Z 0%N with
   | Some (v, cnt) =>
       if (max_str_digits <? cnt)%N then None else Some (if neg then (- v)%Z else v)
@@ -245,7 +245,7 @@ Definition set_text (p : prop) (v : pyv) (st : cpstate) : cpstate * res unit :=
   | Ok s =>
       if (255 <? length s)%nat then (st, Err ValueErr)
       else if forallb xml_ok s then (upd p (set_c_text s) st, Ok tt)
-      else (upd p same_child st, Err ValueErr)
+      else (upd p (set_c_text []) st, Err ValueErr)
   end.
 
 Definition needs_xsi (p : prop) : bool :=
@@ -308,6 +308,23 @@ Fixpoint match_alt (a : list cc) (s : str) : option (str * str) :=
 
 Inductive item := ILit (k : cc) | IField (alts : list (list cc)).
 
+(** Ordered alternatives of one group with continuation [k] for the rest of the pattern:
+    the first alternative whose match lets the continuation succeed (backtracking). *)
+Fixpoint try_alts (k : str -> option (list str * str)) (al : list (list cc)) (s : str)
+  : option (list str * str) :=
+  match al with
+  | [] => None
+  | a :: al' =>
+      match match_alt a s with
+      | Some (cap, rest) =>
+          match k rest with
+          | Some (caps, r) => Some (cap :: caps, r)
+          | None => try_alts k al' s
+          end
+      | None => try_alts k al' s
+      end
+  end.
+
 (** Backtracking prefix match: captured groups in order and the unconsumed rest. *)
 Fixpoint match_pat (p : list item) (s : str) : option (list str * str) :=
   match p with
@@ -317,23 +334,9 @@ Fixpoint match_pat (p : list item) (s : str) : option (list str * str) :=
       | c :: s' => if cc_match k c then match_pat p' s' else None
       | [] => None
       end
-  | IField alts :: p' =>
-      (fix try (al : list (list cc)) : option (list str * str) :=
-         match al with
-         | [] => None
-         | a :: al' =>
-             match match_alt a s with
-             | Some (cap, rest) =>
-                 match match_pat p' rest with
-                 | Some (caps, r) => Some (cap :: caps, r)
-                 | None => try al'
-                 end
-             | None => try al'
-             end
-         end) alts
+  | IField alts :: p' => try_alts (match_pat p') alts s
   end.
 
-Definition d0 : N := 48%N.
 Definition f_Y : item := IField [[CDig; CDig; CDig; CDig]].
 Definition f_m : item := IField [[CRng 49 49; CRng 48 50]; [CRng 48 48; CRng 49 57]; [CRng 49 57]].
 Definition f_d : item :=
